@@ -169,6 +169,8 @@ pub enum Op {
     Observe(u8),
     Mutate(u8),
     Clone(u8),
+    /// `cells[dst].clone_from(&cells[src])` between two cells of the same runtime type (any arms)
+    CloneFrom(u8, u8),
     Drop(u8),
 }
 const STRS: [&str; 3] = ["", "ab", "\u{20ac}x"];
@@ -213,6 +215,20 @@ fn abs_of<P: Payload>(c: &Cell<P>) -> Abs {
         Cell::StdRPlainOk(r) => Abs::StdMix(0, r.is_ok()),
         Cell::StdRPlainErr(r) => Abs::StdMix(1, r.is_ok()),
         Cell::StdRUnitOk(r) => Abs::StdMix(2, r.is_ok()),
+    }
+}
+
+/// the payload a result/option cell currently owns (None: the arm without drop glue)
+fn payload_of<P: Payload>(c: &Cell<P>) -> Option<&P> {
+    match c {
+        Cell::R(r) => match r.as_ref() {
+            Ok(p) | Err(p) => Some(p),
+        },
+        Cell::O(o) => o.as_ref().ok(),
+        Cell::RPlainOk(r) => r.as_ref().err(),
+        Cell::RPlainErr(r) => r.as_ref().ok(),
+        Cell::RUnitOk(r) => r.as_ref().err(),
+        _ => None,
     }
 }
 
@@ -344,6 +360,83 @@ pub fn execute<P: Payload>(hist: &[Op], max_cells: usize) -> Outcome {
                 cells.push(Cell::Cb(cb, 0, with_dtor));
             }
             Op::IntoStd(i) | Op::IntoConv(i) | Op::FromStd(i) | Op::Observe(i) | Op::Mutate(i) | Op::Clone(i) | Op::Drop(i) if (i as usize) >= cells.len() => continue,
+            Op::CloneFrom(d, sidx) => {
+                let (d, sidx) = (d as usize, sidx as usize);
+                if d == sidx || d >= cells.len() || sidx >= cells.len() {
+                    continue;
+                }
+                let (dst, src): (&mut Cell<P>, &Cell<P>) = if d < sidx {
+                    let (x, y) = cells.split_at_mut(sidx);
+                    (&mut x[d], &y[0])
+                } else {
+                    let (x, y) = cells.split_at_mut(d);
+                    (&mut y[0], &x[sidx])
+                };
+                let done = match (dst, src) {
+                    (Cell::R(x), Cell::R(y)) => {
+                        x.clone_from(y);
+                        true
+                    }
+                    (Cell::O(x), Cell::O(y)) => {
+                        x.clone_from(y);
+                        true
+                    }
+                    (Cell::RPlainOk(x), Cell::RPlainOk(y)) => {
+                        x.clone_from(y);
+                        true
+                    }
+                    (Cell::RPlainErr(x), Cell::RPlainErr(y)) => {
+                        x.clone_from(y);
+                        true
+                    }
+                    (Cell::RUnitOk(x), Cell::RUnitOk(y)) => {
+                        x.clone_from(y);
+                        true
+                    }
+                    _ => false,
+                };
+                if done {
+                    // reference model: the destination's previous payload is gone (dropped exactly
+                    // once, now), the destination owns a fresh clone of the source's payload
+                    if P::TRACKED {
+                        expect_dropped.extend(owned[d].iter().cloned());
+                    }
+                    let ids = match payload_of(&cells[d]) {
+                        Some(p) => track(p, &mut all_ids),
+                        None => vec![],
+                    };
+                    if abs_of(&cells[d]) != abs_of(&cells[sidx]) {
+                        bad("clone_from left the destination in a different arm than the source".into());
+                    }
+                    if ids.len() != owned[sidx].len() {
+                        bad("clone_from destination owns a different number of payloads than the source".into());
+                    }
+                    if P::TRACKED && ids.iter().any(|x| owned[sidx].contains(x) || owned[d].contains(x)) {
+                        bad("clone_from destination shares payload identity with the source or its own previous payload".into());
+                    }
+                    if !P::TRACKED && ids != owned[sidx] {
+                        bad("clone_from changed a Copy payload value".into());
+                    }
+                    match (&cells[d], &cells[sidx]) {
+                        (Cell::RPlainOk(x), Cell::RPlainOk(y)) => {
+                            if let (Ok(a), Ok(b)) = (x.as_ref(), y.as_ref()) {
+                                if a != b {
+                                    bad("clone_from changed the plain arm's value".into());
+                                }
+                            }
+                        }
+                        (Cell::RPlainErr(x), Cell::RPlainErr(y)) => {
+                            if let (Err(a), Err(b)) = (x.as_ref(), y.as_ref()) {
+                                if a != b {
+                                    bad("clone_from changed the plain arm's value".into());
+                                }
+                            }
+                        }
+                        _ => {}
+                    }
+                    owned[d] = ids;
+                }
+            }
             Op::IntoStd(i) => {
                 let i = i as usize;
                 let c = cells.remove(i);
@@ -651,6 +744,18 @@ impl<P: Payload> Model for DropModel<P> {
                 Abs::Cb(_) => out.extend([Op::Observe(i), Op::Drop(i)]),
                 Abs::Mix(..) => out.extend([Op::IntoStd(i), Op::Observe(i), Op::Clone(i), Op::Drop(i)]),
                 Abs::StdMix(..) => out.extend([Op::FromStd(i), Op::Observe(i), Op::Drop(i)]),
+            }
+        }
+        for (d, a) in s.abs.iter().enumerate() {
+            for (i, b) in s.abs.iter().enumerate() {
+                let same = match (a, b) {
+                    (Abs::R(_), Abs::R(_)) | (Abs::O(_), Abs::O(_)) => true,
+                    (Abs::Mix(k, _), Abs::Mix(l, _)) => k == l,
+                    _ => false,
+                };
+                if d != i && same {
+                    out.push(Op::CloneFrom(d as u8, i as u8));
+                }
             }
         }
         // Clone is only enabled below the cell bound
